@@ -2,52 +2,98 @@ package c03
 
 import (
 	"fmt"
+	"path/filepath"
 	"testing"
 	"time"
 
-	"github.com/nuetzliches/hookaido/internal/queue"
+	"github.com/nuetzliches/hookaido/internal/verifkit/lin"
+	"github.com/nuetzliches/hookaido/internal/verifkit/qmodel"
+	"github.com/nuetzliches/hookaido/internal/verifkit/qsched"
 	"github.com/nuetzliches/hookaido/internal/verifkit/runner"
 	"github.com/nuetzliches/hookaido/internal/verifkit/sched"
+	"github.com/nuetzliches/hookaido/internal/verifkit/schedrun"
 )
+
+const sec = time.Second
+
+func env(id string) qmodel.EnvSpec {
+	return qmodel.EnvSpec{ID: id, Route: "/r", Target: "pull", Payload: []byte(id)}
+}
+
+func deq(batch int) qsched.Step {
+	return qsched.Step{Op: qmodel.Op{Kind: "deq", Route: "/r", Batch: batch, TTL: sec}}
+}
+
+func own(kind string) qsched.Step {
+	op := qmodel.Op{Kind: kind, Lease: "own"}
+	if kind == "ext" {
+		op.Delay = sec
+	}
+	if kind == "dead" {
+		op.Reason = "boom"
+	}
+	return qsched.Step{Op: op}
+}
+
+// scenario: two consumers (dequeue, then settle the own lease with k1 / k2), one operator (cancel a, requeue a),
+// a clock that reaches the lease expiry, on two messages of one route.
+func scenario(backend, k1, k2 string, withOp bool, ticks []time.Duration) qsched.Scenario {
+	sc := qsched.Scenario{
+		Name: fmt.Sprintf("%s-%s-%s-op%v-ticks%d", backend, k1, k2, withOp, len(ticks)), Backend: backend,
+		Setup: []qmodel.Op{{Kind: "enq", Envs: []qmodel.EnvSpec{env("a")}}, {Kind: "enq", Envs: []qmodel.EnvSpec{env("b")}}},
+		Threads: []qsched.Thread{
+			{Name: "c1", Steps: []qsched.Step{deq(1), own(k1)}},
+			{Name: "c2", Steps: []qsched.Step{deq(1), own(k2)}},
+		},
+		Ticks: ticks,
+		Dir:   filepath.Join(runner.Scratch(), "c03"),
+	}
+	if withOp {
+		sc.Threads = append(sc.Threads, qsched.Thread{Name: "op", Steps: []qsched.Step{
+			{Op: qmodel.Op{Kind: "cancel", IDs: []string{"a"}}}, {Op: qmodel.Op{Kind: "requeue", IDs: []string{"a"}}}}})
+	}
+	return sc
+}
 
 func TestCheck(t *testing.T) {
 	r := runner.Start("C03", "model_checking")
-	res := sched.Explore(t, sched.Options{Name: "H1-memory", Bound: 2}, func(x *sched.Exec) {
-		st := queue.NewMemoryStore()
-		st.Enqueue(queue.Envelope{ID: "a", Route: "/r", Target: "pull"})
-		st.Enqueue(queue.Envelope{ID: "b", Route: "/r", Target: "pull"})
-		for i := 0; i < 2; i++ {
-			name := fmt.Sprintf("c%d", i)
-			x.Go(name, func() {
-				resp, err := st.Dequeue(queue.DequeueRequest{Route: "/r", Batch: 1, LeaseTTL: time.Second})
-				if err != nil || len(resp.Items) != 1 {
-					x.Logf("%s deq err=%v n=%d", name, err, len(resp.Items))
-					return
-				}
-				it := resp.Items[0]
-				x.Logf("%s deq %s att=%d", name, it.ID, it.Attempt)
-				err = st.Ack(it.LeaseID)
-				x.Logf("%s ack %s err=%v", name, it.ID, err)
-			})
+	type run struct {
+		sc    qsched.Scenario
+		bound int
+	}
+	var runs []run
+	// memory: unbounded (every interleaving); sqlite: preemption-bounded
+	for _, kk := range [][2]string{{"ack", "nack"}, {"nack", "ext"}, {"ext", "ack"}} {
+		runs = append(runs, run{scenario("memory", kk[0], kk[1], true, []time.Duration{sec}), -1})
+	}
+	runs = append(runs, run{scenario("memory", "nack", "nack", true, []time.Duration{sec, sec}), runner.Pick(r, 4, -1)})
+	sb := runner.Pick(r, 2, 3)
+	runs = append(runs, run{scenario("sqlite", "ack", "nack", true, nil), sb})
+	runs = append(runs, run{scenario("sqlite", "nack", "ext", false, []time.Duration{sec}), sb})
+	if r.Thorough() {
+		runs = append(runs, run{scenario("sqlite", "ext", "ack", true, []time.Duration{sec}), 2})
+		three := scenario("memory", "nack", "ack", false, []time.Duration{sec})
+		three.Name = "memory-3consumers"
+		three.Threads = append(three.Threads, qsched.Thread{Name: "c3", Steps: []qsched.Step{deq(2), own("ack")}})
+		runs = append(runs, run{three, -1})
+	}
+	budget := runner.Pick(r, 60*time.Second, 12*time.Minute) / time.Duration(len(runs))
+	for _, ru := range runs {
+		body, rec := qsched.Body(ru.sc)
+		oracle := func(x *sched.Exec) {
+			if why := qsched.Exclusivity(rec, sec); why != "" {
+				sched.Failf("lease exclusivity: %s", why)
+			}
+			if why := lin.Check(rec.Init, rec.Events); why != "" {
+				sched.Failf("%s", why)
+			}
 		}
-		x.Go("op", func() {
-			c, _ := st.CancelMessages(queue.MessageCancelRequest{IDs: []string{"a"}})
-			x.Logf("op cancel %d", c.Canceled)
-			q, _ := st.RequeueMessages(queue.MessageRequeueRequest{IDs: []string{"a"}})
-			x.Logf("op requeue %d", q.Requeued)
-		})
-		x.Run()
-		x.Finish()
-	})
-	if res.InfraErr != nil {
-		r.Infra("%v", res.InfraErr)
+		schedrun.Run(r, t, schedrun.Spec{Name: ru.sc.Name, Bound: ru.bound, Shards: 16, Budget: budget, Body: body, Oracle: oracle,
+			VioKey: func(f *sched.Failure) string { return "lease-exclusivity:" + ru.sc.Backend }})
 	}
-	r.Set("states", res.Executions)
-	r.Set("transitions", res.Points)
-	r.Set("traces_validated_against_impl", res.Executions)
-	r.Set("distinct_outcomes", len(res.Outcomes))
-	for _, o := range res.OutcomeList() {
-		r.Sample(o)
-	}
+	r.Assume("the virtual clock advances only while no store operation is in flight (operations take microseconds, leases seconds)")
+	r.Assume("scheduling points are the synchronisation operations of the store (mutex, atomics, SQLite connection acquisition); code between them is thread-local provided it is data-race free (side condition checked by a separate free-running -race pass)")
+	r.Assume("Postgres backend and the gRPC/HTTP transports in front of the store are not part of this exploration (pull HTTP: C04; dispatcher: C06)")
+	r.Set("rule", "every interleaving (memory: all; sqlite: within the preemption bound) of 2-3 consumer threads (dequeue, then ack/nack/extend the own lease), an operator thread (cancel, requeue) and a clock thread crossing the lease expiry, on the real store inside a synctest bubble; oracle per execution: lease-exclusivity monitor on the recorded grants + brute-force linearizability against qmodel; non-trivial = distinct observation logs")
 	r.Finish()
 }
